@@ -13,6 +13,7 @@ use crate::util::*;
 use autosar_data::*;
 use autosar_data_specification::{CharacterDataSpec, ElementType};
 use std::collections::{BTreeMap, HashMap, HashSet, VecDeque};
+use std::str::FromStr;
 
 pub const FULL: u32 = 0x1F_FFFF;
 
@@ -954,8 +955,91 @@ pub fn doc_main(args: &[String]) {
     }
 }
 
+
+/// C17/C07 probe (public API only): an element moved / copied below a parent that lists its NAME with ANOTHER element type keeps
+/// its stored type.  For pairs (P1 lists X as C1, P2 lists X as C2, C1 has a sub-element S that C2 does not list in any version):
+/// create X below P1, S below X, then move (or copy) X below P2; report whether the operation succeeded, whether the file still
+/// loads strictly in its OWN version and what check_version_compatibility(own version) says.
+pub fn xattach_main(args: &[String]) {
+    let names = Names::load(&args[0]);
+    let limit: usize = args.get(1).map(|x| x.parse().unwrap()).unwrap_or(40);
+    let sp = Spec::build();
+    let ver = AutosarVersion::LATEST;
+    let v = ver as u32;
+    let vi = sp.vidx(v);
+    // name -> [(parent type, child type)] among the types reachable in v
+    let mut by_name: BTreeMap<u16, Vec<(ElementType, ElementType)>> = BTreeMap::new();
+    let mut reachable: Vec<ElementType> = sp.reach[vi].keys().copied().collect();
+    reachable.push(ElementType::ROOT);
+    reachable.sort_by_key(|t| format!("{:?}", t));
+    for t in &reachable {
+        for (n, et, _, _) in subs_in(*t, v) {
+            by_name.entry(n as u16).or_default().push((*t, et));
+        }
+    }
+    let mut done = 0usize;
+    let mut stats: BTreeMap<String, usize> = BTreeMap::new();
+    'outer: for (_n, l) in &by_name {
+        for (p1, c1) in l {
+            for (p2, c2) in l {
+                if c1 == c2 || p1 == p2 {
+                    continue;
+                }
+                // a sub-element of c1 that c2 does not know at all, not named (keeps the probe simple)
+                let Some((sname, _, _, _)) = subs_in(*c1, v).into_iter().find(|(sn, st, _, nm)| {
+                    *sn != ElementName::ShortName && c2.find_sub_element(*sn, u32::MAX).is_none() && nm & v == 0 && !st.is_named_in_version(ver)
+                }) else { continue };
+                for kind in ["move", "copy"] {
+                    let mut d = Doc::new(&names);
+                    d.push(Op::NewModel);
+                    d.push(Op::CreateFile(0, b"f0.arxml".to_vec(), v));
+                    let Some(path1) = sp.path(*p1, v) else { continue };
+                    let Some(path2) = sp.path(*p2, v) else { continue };
+                    let Some(h1) = d.ensure(0, &path1, v, None) else { continue };
+                    let xname = l.iter().find(|(a, b)| a == p1 && b == c1).map(|_| ()).and(Some(())).map(|_| ());
+                    let _ = xname;
+                    let nm = ElementName::from_str(&names.el[*_n as usize]).unwrap();
+                    let named = c1.is_named_in_version(ver);
+                    let Some(x) = d.child(h1, nm, named, false, v) else { continue };
+                    if d.child(x, sname, false, false, v).is_none() {
+                        continue;
+                    }
+                    // the second parent: a fresh path where possible (reuse=false for the last step would duplicate containers; reuse is fine)
+                    let Some(h2) = d.ensure(0, &path2, v, None) else { continue };
+                    if h2 == h1 || d.ex.handles[h2].element_type() != *p2 {
+                        continue;
+                    }
+                    let r = if kind == "move" { d.push(Op::Move(h2, x)) } else { d.push(Op::Copy(h2, x)) };
+                    let opres = if r.starts_with("R OK") { "ok" } else { "err" };
+                    let file = d.ex.files[0].clone();
+                    let text = file.serialize().unwrap_or_default();
+                    let strict = strict_load(&text);
+                    let (errs, mask) = file.check_version_compatibility(ver);
+                    let key = format!("kind={} op={} strict={} clean={}", kind, opres,
+                        match &strict { Ok(_) => "ok".to_string(), Err(e) => e.chars().take_while(|c| *c != '@').collect() }, errs.is_empty() as u8);
+                    *stats.entry(key.clone()).or_insert(0) += 1;
+                    if done < limit {
+                        println!("XATTACH {} name={} p1={:?} c1={:?} p2={:?} c2={:?} child={} mask={} result={}", key, nm.to_str(), p1, c1, p2, c2, sname.to_str(), mask, r);
+                        if opres == "ok" && strict.is_err() && errs.is_empty() && done < 3 {
+                            println!("DOC {}", d.ops.iter().map(|o| o.line()).collect::<Vec<_>>().join(" ; "));
+                        }
+                    }
+                    done += 1;
+                    if done >= 4000 {
+                        break 'outer;
+                    }
+                }
+            }
+        }
+    }
+    for (k, n) in stats {
+        println!("STAT xattach {} n={}", k, n);
+    }
+}
+
 pub fn main(args: &[String]) {
     match args[0].as_str() {
+        "xattach" => xattach_main(&args[1..]),
         "stats" => stats_main(&args[1..]),
         "doc" => doc_main(&args[1..]),
         "gen" => gen_main(&args[1..]),
